@@ -20,9 +20,9 @@ CHECKS = {
    note="Trusted: as C02. F2 (trusted root not persisted) is recorded in known_findings.json; pairs of cycles in its two scenario classes print KNOWN-FINDING, any other lower version is a VIOLATION.",
    technique="TLA+ model (TLC exhaustive, 3 cycles) + replay + TLC trace validation"),
  "C04": dict(cat="model_checking", design="5 C04",
-   text="TufClient.tla with the clock, latest_known_time and enforcement as state; MC_Freeze expires every subset of roles and an intermediate root and lets the clock jump between any two phases and before reads. TLC checks UnsafeNeverFailsForTime, ReadAfterExpiryFails, NeverExpiredWrongly, ClockBackFails, TargetsFreshAtEnd; every path is replayed with the scripted clock hook at tick sizes of 2 s, 1 day and 400 days, and the recorded traces (including the clock samples the library actually took) are validated by TLC; the observational mode restates the property over samples, expiries and results.",
+   text="TufClient.tla with the clock, latest_known_time and enforcement as state; MC_Freeze expires every subset of roles and an intermediate root and lets the clock jump between any two phases and before reads. TLC checks UnsafeNeverFailsForTime, ReadAfterExpiryFails, NeverExpiredWrongly, ClockBackFails, TargetsFreshAtEnd; every path is replayed with the scripted clock hook at tick sizes of 2 s, 1 day and 400 days, and the recorded traces (including the clock samples the library actually took) are validated by TLC; the observational mode restates the property over samples, expiries and results. Lifecycle.tla adds the system level: tuftool publishes metadata with expirations in the past or the future, tools load it with and without --allow-expired-repo, and a client with a datastore refreshes with enforcement on (ExpiredNeverTrusted, ToolsRefuseExpired); simulated behaviours are run through the tuftool binary and the in-process client, and the outcome of every refresh is judged against the dates in the written files.",
    note="Trusted: TLC, the clock hook (adds a scripted offset inside Datastore::system_time), expiry instants placed strictly between ticks so that <= vs < at the boundary is not exercised.",
-   technique="TLA+ model (TLC exhaustive) + replay with scripted clock + TLC trace validation"),
+   technique="TLA+ model (TLC exhaustive) + replay with scripted clock + TLC trace validation + Lifecycle.tla command-level model with replay through the tuftool binary"),
  "C05": dict(cat="model_checking", design="5 C05",
    text="TufClient.tla with pins (version, digest as file identity, length) and byte variants; MC_Pins combines any published timestamp pin with any published snapshot/targets file (version, spelling, size). TLC checks PinsMatch and ConsistentNames; every path is replayed and the recorded requests and results validated by TLC. The repository's own fixtures (tough/tests/data: tuf-reference-impl, consistent-snapshots, rotated-root, dubious-role-names, expired-repository with and without enforcement, safe-target-paths) are loaded twice each by the real client through the recording transport; an abstraction function maps the real RSA / Ed25519 documents to model records (signatures re-verified by the harness), and the traces are validated against TufClient in both modes; a copy with one recorded version changed must be rejected.",
    note="Trusted: TLC, SHA-256 modelled as injective, harness padding/re-spelling of files. Delegated-role pins are covered by the delegation module (C07/C09), not here.",
